@@ -437,6 +437,7 @@ class JavaFE:
         self.inited = set()
         self.ctl = PathCtl()
         self.cks_registered = True
+        self.cks_at_init = None      # registration state while static initialisers run (None: as at call time)
         self.cks_hint = {'*': (4, False)}
         self.steps = 0
 
@@ -481,7 +482,14 @@ class JavaFE:
                 self.statics[(cname, n)] = default_of(d)
         m = c.methods.get('<clinit>()V')
         if m is not None:
-            self.exec_method(m, [])
+            # a static initialiser runs when the class is loaded - the registry may have looked different then (cks_at_init)
+            now = self.cks_registered
+            if getattr(self, 'cks_at_init', None) is not None:
+                self.cks_registered = self.cks_at_init
+            try:
+                self.exec_method(m, [])
+            finally:
+                self.cks_registered = now
 
     def new_obj(self, cname):
         c = self.classes[cname]
